@@ -41,23 +41,33 @@ From PVGen Require Import Lit LitSpec LitClass Proofs.LitNum Proofs.LitP Proofs.
 (* the arm lists of lit_into_ty / lit_as_rvalue / ident_into_ty regenerated from the Rust source are, arm for arm and in
    source order, the lists the model was written against (a removed / merged / added / reordered arm breaks this) *)
 Theorem C20_arm_tables :
-  (lit_into_ty_arms = model_lit_into_ty_arms \/ lit_into_ty_arms = model_lit_into_ty_arms ++ [arc_into_arm]) /\
+  lit_into_ty_arms = model_lit_into_ty_arms ++ (if string_at_bytesvec_ok then [strvec_into_arm] else []) ++ [arc_into_arm] /\
   lit_as_rvalue_arms = [ ([(LPMap, CPLazyStaticRef)], FFalse); ([(LPMap, CPMap)], FFalse); ([(LPMap, CPBTreeMap)], FFalse);
                          ([(LPList, CPLazyMap)], FFalse); ([(LPList, CPLazyStaticRef)], FFalse);
                          ([(LPList, CPMap)], FFalse); ([(LPList, CPBTreeMap)], FFalse) ] /\
-  (ident_into_ty_arms = model_ident_into_ty_arms \/
-   ident_into_ty_arms = model_ident_into_ty_arms ++ [([(CPAny, CPArc)], FFalse)]) /\
-  arc_ok = Nat.ltb 4 (length ident_into_ty_arms) /\
+  ident_into_ty_arms = model_ident_into_ty_arms ++ [([(CPAny, CPArc)], FFalse)] /\
   int_float_casts = [(CPF32, CPF32); (CPF64, CPF64); (CPOrderedF64, CPF64)] /\ int_bool_test = (true, 0).
 Proof.
-  exact (conj lit_into_ty_arms_pinned (conj lit_as_rvalue_arms_pinned (conj ident_into_ty_arms_pinned (conj arc_arms_together
-           (conj (proj1 lit_scalars_pinned) (proj1 (proj2 lit_scalars_pinned))))))).
+  exact (conj lit_into_ty_arms_pinned (conj lit_as_rvalue_arms_pinned (conj ident_into_ty_arms_pinned
+           (conj (proj1 lit_scalars_pinned) (proj1 (proj2 lit_scalars_pinned)))))).
 Qed.
 Print Assumptions C20_arm_tables.
 
+(* the general theorems below are stated for the generator AS IT IS: with the repairs F-20a (Arc arms), F-20b (a reference to a
+   const of container type is lowered from the const's literal), F-20c and F-20d (parse_double).  Each flag is regenerated from
+   context.rs; were one of them to regenerate to false, this obligation -- and Proofs/LitP.v, which uses it -- fails *)
+Theorem C20_repairs_present :
+  arc_ok = true /\ const_inline_present = true /\ double_sign_run_ok = true /\ double_exponent_ok = true.
+Proof. exact flags_now. Qed.
+Print Assumptions C20_repairs_present.
+
 (* every literal (unbounded nesting: induction over the literal), every type, every schema on whose defaults the generator
    meets no panic class: a well-typed literal outside the classes is lowered to an expression denoting exactly the value the
-   IDL gives it (plus the const flag) *)
+   IDL gives it (plus the const flag).  INSIDE the domain (the classes of LitClass.v follow the source as it is): a target
+   wrapped by pilota.rust_wrapper_arc at any level (the value is the wrapped type's value; never const), a reference to a const
+   of list / set / map type (the meaning of the const's literal at the target type, followed through further such references by
+   unfolding fuel), double constants written -+x or with an exponent of several signs / 0x digits (sign_norm, exp_norm), a
+   const whose type is a typedef anywhere on the target's typedef chain *)
 Theorem C20_literal_meaning : forall parse_f64 S,
   class_free_schema S = true -> forall t l,
   well_typed_lit parse_f64 S (erase t) l = true ->
@@ -66,13 +76,12 @@ Theorem C20_literal_meaning : forall parse_f64 S,
 Proof. exact literal_meaning. Qed.
 Print Assumptions C20_literal_meaning.
 
-(* FULL statement wanted: on every well-typed literal the lowering returns a value.  It is REFUTED by the three witnesses
-   below (what is left after the repairs of F-14g / F-14i / F-14l and of the missing arms); what holds: the only failures
-   (panic or otherwise) on well-typed literals are inside the decidable classes.
-   _partial also because (1) the hypothesis class_free_schema is about the whole schema (the generator lowers every default
-   of a crate; a panic anywhere leaves no emitted code), (2) consts of container type are outside `const_simple`: their own
-   definitions are modelled (def_lit, now also for sets) but not specified, and (3) the classes over-approximate: a const
-   whose type is a typedef strictly inside the target's typedef chain is accepted by the generator but not by path_ok. *)
+(* FULL statement wanted: on every well-typed literal the lowering returns a value.  It is REFUTED by the witnesses below
+   (C20_path_convert_refuted, and, until their repairs are in the source, C20_string_at_bytesvec_refuted and
+   C20_map_key_refuted); what holds: the only failures (panic or otherwise) on well-typed literals are inside the decidable
+   classes.  _partial also because (1) the hypothesis class_free_schema is about the whole schema (the generator lowers every
+   default of a crate; a panic anywhere leaves no emitted code) and (2) consts of container type are outside `const_simple`:
+   their own definitions are modelled (def_lit) and compared on every run, but only their USES are specified. *)
 Theorem C20_lowering_total_partial : forall parse_f64 S,
   class_free_schema S = true -> forall t l,
   well_typed_lit parse_f64 S (erase t) l = true ->
@@ -150,6 +159,7 @@ Print Assumptions C20_missing_arms_repaired.
 (* a default on a `pilota.rust_wrapper_arc` field: no literal of any kind had an arm (class arc-field-default) *)
 Theorem C20_arc_field_default_refuted : arc_ok = false ->
   well_typed_lit pf0 W_arc (erase (RArc (RPath 0))) (LMap [(LString [x6e], LInt 1)]) = true /\
+  pclass_top W_arc (LMap [(LString [x6e], LInt 1)]) (item_cty (RArc (RPath 0))) = Some PCNoArm /\
   default_val_lit pf0 W_arc (RArc (RPath 0)) (LMap [(LString [x6e], LInt 1)]) = LPanic PUnexpectedLiteral /\
   default_val_lit pf0 W_arc (RArc RString) (LString [x61]) = LPanic PUnexpectedLiteral /\
   default_val_lit pf0 W_arc (RArc RString) (LConst 0) = LPanic PInvalidConvert.
@@ -157,6 +167,8 @@ Proof. exact arc_field_default_refuted. Qed.
 Print Assumptions C20_arc_field_default_refuted.
 
 Theorem C20_arc_field_default_repaired : arc_ok = true ->
+  pclass_top W_arc (LMap [(LString [x6e], LInt 1)]) (item_cty (RArc (RPath 0))) = None /\
+  pclass_top W_arc (LConst 0) (item_cty (RArc RString)) = None /\
   default_val_lit pf0 W_arc (RArc (RPath 0)) (LMap [(LString [x6e], LInt 1)]) = LOk (GStruct [(2, GI32 1)] [], false) /\
   default_val_lit pf0 W_arc (RArc RString) (LString [x61]) = LOk (GBytes [x61], false) /\
   default_val_lit pf0 W_arc (RArc RString) (LConst 0) = LOk (GBytes [x6b], false) /\
@@ -169,6 +181,7 @@ Print Assumptions C20_arc_field_default_repaired.
 (* a reference to a const of list / set / map type (class container-const-reference) *)
 Theorem C20_container_const_reference_refuted : const_inline_present = false ->
   well_typed_lit pf0 W_const_ref (erase (RSet RFastStr)) (LConst 1) = true /\
+  pclass_top W_const_ref (LConst 1) (item_cty (RSet RFastStr)) = Some PCPathConvert /\
   default_val_lit pf0 W_const_ref (RVec RI32) (LConst 0) = LPanic PInvalidConvert /\
   default_val_lit pf0 W_const_ref (RSet RFastStr) (LConst 1) = LPanic PInvalidConvert /\
   default_val_lit pf0 W_const_ref (RMap RFastStr RI32) (LConst 2) = LPanic PInvalidConvert.
@@ -176,6 +189,8 @@ Proof. exact container_const_reference_refuted. Qed.
 Print Assumptions C20_container_const_reference_refuted.
 
 Theorem C20_container_const_reference_repaired : const_inline_present = true ->
+  pclass_top W_const_ref (LConst 1) (item_cty (RSet RFastStr)) = None /\
+  pclass_top W_const_ref (LList [LConst 0; LList []]) (item_cty (RVec (RVec RI32))) = None /\
   default_val_lit pf0 W_const_ref (RVec RI32) (LConst 0) = LOk (GList [GI32 1; GI32 2], false) /\
   default_val_lit pf0 W_const_ref (RSet RFastStr) (LConst 1) = LOk (GSet [GBytes [x61]], false) /\
   default_val_lit pf0 W_const_ref (RBTreeSet RFastStr) (LConst 1) = LOk (GSet [GBytes [x61]], false) /\
@@ -222,29 +237,50 @@ Theorem C20_double_exponent_repaired : double_exponent_ok = true ->
 Proof. exact double_exponent_repaired. Qed.
 Print Assumptions C20_double_exponent_repaired.
 
-(* open whatever the form, class no-arm: a string at `binary` with rust_type = "vec" *)
-Theorem C20_no_arm_refuted : exists parse_f64 S t l,
-  well_typed_lit parse_f64 S (erase t) l = true /\ default_val_lit parse_f64 S t l = LPanic PUnexpectedLiteral /\
-  pclass_top S l (item_cty t) = Some PCNoArm.
-Proof. exists pf0, (mkLS [] []), RBytesVec, (LString [x61]). exact no_arm_refuted. Qed.
-Print Assumptions C20_no_arm_refuted.
+(* ---- the classes left after F-20a..d.  Two have a proposed repair (fam/gen/patches/string-at-bytesvec.diff, map-key-rvalue.diff;
+   flags string_at_bytesvec_ok / map_key_rvalue regenerated from context.rs; each pair holds in both forms, one vacuously), one
+   is open whatever the flags ---- *)
 
-(* open whatever the form, class path-convert: a const of a typedef type used at the aliased type *)
+(* class string-at-bytesvec (F-20e): a string default on a `binary` field with pilota.rust_type = "vec" (no (String, Vec) arm) *)
+Theorem C20_string_at_bytesvec_refuted : string_at_bytesvec_ok = false ->
+  well_typed_lit pf0 (mkLS [] []) (erase RBytesVec) (LString [x61]) = true /\
+  default_val_lit pf0 (mkLS [] []) RBytesVec (LString [x61]) = LPanic PUnexpectedLiteral /\
+  pclass_top (mkLS [] []) (LString [x61]) (item_cty RBytesVec) = Some PCNoArm.
+Proof. exact string_at_bytesvec_refuted. Qed.
+Print Assumptions C20_string_at_bytesvec_refuted.
+
+Theorem C20_string_at_bytesvec_repaired : string_at_bytesvec_ok = true ->
+  default_val_lit pf0 (mkLS [] []) RBytesVec (LString [x61]) = LOk (GBytes [x61], false) /\
+  default_val_lit pf0 (mkLS [] []) RBytesVec (LString [x5c; x6e; x22]) = LOk (GBytes [x0a; x22], false) /\
+  pclass_top (mkLS [] []) (LString [x61]) (item_cty RBytesVec) = None.
+Proof. exact string_at_bytesvec_repaired. Qed.
+Print Assumptions C20_string_at_bytesvec_repaired.
+
+(* class map-key-map (F-20f): a map literal as a map KEY -- mk_map lowers keys through lit_into_ty, which has no arm for a
+   map literal (map<map<i8,i8>, i8> with pilota.rust_type = "btree" is a type the emitted code compiles for: BTreeMap is Ord) *)
+Theorem C20_map_key_refuted : map_key_rvalue = false ->
+  well_typed_lit pf0 (mkLS [] []) (erase (RBTreeMap (RBTreeMap RI8 RI8) RI8)) (LMap [(LMap [(LInt 1, LInt 2)], LInt 3)]) = true /\
+  default_val_lit pf0 (mkLS [] []) (RBTreeMap (RBTreeMap RI8 RI8) RI8) (LMap [(LMap [(LInt 1, LInt 2)], LInt 3)]) = LPanic PUnexpectedLiteral /\
+  pclass_top (mkLS [] []) (LMap [(LMap [(LInt 1, LInt 2)], LInt 3)]) (item_cty (RBTreeMap (RBTreeMap RI8 RI8) RI8)) = Some PCNestedMap.
+Proof. exact map_key_refuted. Qed.
+Print Assumptions C20_map_key_refuted.
+
+Theorem C20_map_key_repaired : map_key_rvalue = true ->
+  default_val_lit pf0 (mkLS [] []) (RBTreeMap (RBTreeMap RI8 RI8) RI8) (LMap [(LMap [(LInt 1, LInt 2)], LInt 3)])
+    = LOk (GMap [(GMap [(GI8 1, GI8 2)], GI8 3)], false) /\
+  default_val_lit pf0 (mkLS [] []) (RBTreeMap (RBTreeMap RI8 RI8) RI8) (LMap [(LList [], LInt 3)]) = LOk (GMap [(GMap [], GI8 3)], false) /\
+  pclass_top (mkLS [] []) (LMap [(LMap [(LInt 1, LInt 2)], LInt 3)]) (item_cty (RBTreeMap (RBTreeMap RI8 RI8) RI8)) = None.
+Proof. exact map_key_repaired. Qed.
+Print Assumptions C20_map_key_repaired.
+
+(* open whatever the flags, class const-typedef-at-target (F-20g): a const of a TYPEDEF type used at the aliased type
+   (`typedef i32 Count  const Count K = 1  struct S { 1: i32 x = K }`): ident_into_ty looks through the newtypes of the target,
+   not of the source *)
 Theorem C20_path_convert_refuted : exists parse_f64 S t l,
   well_typed_lit parse_f64 S (erase t) l = true /\ default_val_lit parse_f64 S t l = LPanic PInvalidConvert /\
   pclass_top S l (item_cty t) = Some PCPathConvert.
 Proof. exists pf0, (mkLS [INewType RI32] [(RPath 0, LInt 1)]), RI32, (LConst 0). exact path_convert_refuted. Qed.
 Print Assumptions C20_path_convert_refuted.
-
-(* still open, class nested-map: a map literal as a map KEY (only lit_into_ty looks at keys; no Rust map is hashable) *)
-Theorem C20_map_key_map_refuted : exists parse_f64 S t l,
-  well_typed_lit parse_f64 S (erase t) l = true /\ default_val_lit parse_f64 S t l = LPanic PUnexpectedLiteral /\
-  pclass_top S l (item_cty t) = Some PCNestedMap.
-Proof.
-  exists pf0, (mkLS [] []), (RMap (RMap RI8 RI8) RI8), (LMap [(LMap [(LInt 1, LInt 2)], LInt 3)]).
-  exact map_key_refuted.
-Qed.
-Print Assumptions C20_map_key_map_refuted.
 
 (* Default::default(): the model of ImplDefaultPlugin (Defaults.default_of) over the schema whose field defaults are the
    LOWERED literals (Lit.proj) holds, field for field, the value of the IDL default (present also when the field is
